@@ -154,8 +154,12 @@ func genC17(rt *rapid.T, st *Stats) *ScaleCase {
 	maxN, maxM, _ := sizeRegime(rt, 930, 65, 5)
 	_, ies, _ := genGraph(rt, GraphSpec{MaxN: maxN, MaxM: maxM, Families: allFam, Union: true, SelfLoops: true, Parallel: true})
 	c := &Case{Edges: toEdges(ies, nid)}
+	szMode := 0
+	if rapid.Bool().Draw(rt, "all_sized") {
+		szMode = 1 // every node gets its own size: heterogeneous widths are what makes the relation bite
+	}
 	genOptions(rt, c, NodeIDs(c.Edges), OptSpec{CBs: allCB, Lays: allLay, Poss: fastPos, BKForced: true, Rts: []int{RtStraight, RtPolyline, RtOrtho},
-		Thorough: false, Virt: true, Sizes: 0, NSZero: true, LSZero: true, DefaultsOK: false})
+		Thorough: false, Virt: true, Sizes: szMode, NSZero: true, LSZero: true, DefaultsOK: false})
 	k := rapid.IntRange(-3, 6).Draw(rt, "k")
 	if k == 0 {
 		k = 1
@@ -206,7 +210,7 @@ func checkC17(sc *ScaleCase) *Outcome {
 		return o.failf("scaling all sizes and spacings by 2^%d does not scale the layout by the same factor:\n%s", sc.K, diffLayouts(scaled, l2))
 	}
 	// classification
-	if c.LayerSpacing() > 0 && !c.Virt {
+	if bandsUsable(c) {
 		v := NewView(c, l1)
 		cnt := map[[2]int]int{}
 		for _, id := range v.IDs {
